@@ -561,7 +561,8 @@ SHARED = {
     "C16": [("c01", "r01_11_trusted_packings"), ("c10", "r10_14_borrow_and_carry_use_the_right_year")],
     "C09": [("c01", "r01_11_trusted_packings"), ("c10", "r10_14_borrow_and_carry_use_the_right_year"), ("c13", "r13_10_cache_slot_is_validated_for_its_own_key")],
     "C11": [("c03", "r03_11_trusted_instants"), ("c10", "r10_14_borrow_and_carry_use_the_right_year"), ("c13", "r13_2_zone_interval_cache"), ("c06", "r06_11_fixed_zone_table")],
-    "C15": [("c03", "r03_11_trusted_instants")],
+    "C15": [("c03", "r03_11_trusted_instants"), ("c02", "r02_5_leap_decisions"), ("c03", "r03_15_duration_truncated_views")],
+    "C14": [("c03", "r03_14_tick_arithmetic")],
     "C07": [("c08", "r08_7_embedded_fields"), ("c17", "r17_8_variable_precision_predicates"), ("c08", "r08_10_field_set_tests"), ("c17", "r17_7_sign_predicates")],
     "C05": [("c01", "r01_cfp_calendar_free_productions"), ("c04", "r04_12_cache_periods_stay_in_range")],
     "C10": [("c03", "r03_6_rounding_helpers_exact")],
